@@ -22,6 +22,41 @@ def specReports (addr : Nat) : Abs → List (List Nat) → List Event
   | _, [] => []
   | a, b :: bs => (specStep addr a b).2.toList ++ specReports addr (specStep addr a b).1 bs
 
+/-- The environment assumptions in their precise form, along the packet-level run from the abstract
+state `a`: every packet is well formed with 8-bit bytes; a packet that starts with a data PID is
+followed by at least 2 idle cycles; a data packet that IS REPORTED (and will be ACKed) is followed by
+the handshake gap of at least `delay + 3` idle cycles. -/
+def LegalFrom (c : Config) : Abs → List RxPacket → Prop
+  | _, [] => True
+  | a, p :: ps =>
+    p.wf ∧ (∀ b ∈ p.bytes, b < 256) ∧
+    ((∃ pid rest, p.bytes = pid :: rest ∧ isDataPid pid = true) → 2 ≤ p.gap.length) ∧
+    ((specStep c.addr a p.bytes).2 ≠ none → c.delay + 3 ≤ p.gap.length) ∧
+    LegalFrom c (specStep c.addr a p.bytes).1 ps
+
+theorem legalFrom_append (c : Config) (a : Abs) (h1 h2 : List RxPacket) :
+    LegalFrom c a (h1 ++ h2) ↔
+      LegalFrom c a h1 ∧ LegalFrom c (specFinal c.addr a (h1.map (·.bytes))) h2 := by
+  induction h1 generalizing a with
+  | nil => simp [LegalFrom, specFinal]
+  | cons p ps ih => simp [LegalFrom, specFinal, ih, and_assoc]
+
+/-- the simple sufficient condition: the handshake gap after EVERY packet that starts with a data PID -/
+theorem legal_legalFrom (c : Config) (ps : List RxPacket) (a : Abs) (h : Legal c ps) : LegalFrom c a ps := by
+  induction ps generalizing a with
+  | nil => trivial
+  | cons p ps ih =>
+    obtain ⟨hw, hg, hb⟩ := h p (by simp)
+    refine ⟨hw, hb, fun hd => by have := hg hd; omega, ?_, ih _ (fun q hq => h q (by simp [hq]))⟩
+    intro hr
+    apply hg
+    match hbytes : p.bytes with
+    | [] => rw [hbytes] at hr; simp [specStep] at hr
+    | b0 :: bs =>
+      by_cases hp : isDataPid b0 = true
+      · exact ⟨b0, bs, rfl, hp⟩
+      · rw [hbytes] at hr; simp [specStep, hp] at hr
+
 theorem specFinal_append (addr : Nat) (a : Abs) (h1 h2 : List (List Nat)) :
     specFinal addr a (h1 ++ h2) = specFinal addr (specFinal addr a h1) h2 := by
   induction h1 generalizing a with
@@ -53,12 +88,14 @@ theorem spec_out_cases (addr : Nat) (a : Abs) (b : List Nat) :
 
 /-- the events one packet causes, without the cycle numbers -/
 theorem packet_trace (c : Config) (hc : c.delay ≤ c.counterMax + 1) (p : RxPacket) (s : State) (hs : Boundary s)
-    (hw : p.wf) (hg : gapOk c p) (hb : ∀ b ∈ p.bytes, b < 256) :
+    (hw : p.wf) (hb : ∀ b ∈ p.bytes, b < 256)
+    (hg2 : (∃ pid rest, p.bytes = pid :: rest ∧ isDataPid pid = true) → 2 ≤ p.gap.length)
+    (hg3 : (specStep c.addr (absOf s) p.bytes).2 ≠ none → c.delay + 3 ≤ p.gap.length) :
     ((specStep c.addr (absOf s) p.bytes).2 = none → trace c s (render p) = []) ∧
     (∀ e, (specStep c.addr (absOf s) p.bytes).2 = some e →
       (trace c s (render p) = [e, .ack] ∨ trace c s (render p) = [.ack, e]) ∧
       (c.hs = true → trace c s (render p) = [.ack, e])) := by
-  obtain ⟨_, _, h3, _⟩ := packet_exact c hc p s hs hw hg hb 0
+  obtain ⟨_, _, h3, _⟩ := packet_exact c hc p s hs hw hb hg2 hg3 0
   have h4 := ttrace_snd c s (render p) 0
   rw [h3] at h4
   constructor
@@ -79,11 +116,12 @@ theorem packet_trace (c : Config) (hc : c.delay ≤ c.counterMax + 1) (p : RxPac
         | true => simp [hh] at hi
       exact ⟨Or.inl this, fun h => by rw [hhs] at h; exact absurd h (by simp)⟩
 
-/-- **Every legal history, exactly** (from any packet boundary): the composition ends at a packet
+/-- **Every legal history, exactly** (from any packet boundary; `LegalFrom`: 2 idle cycles after a
+data-PID packet, the handshake gap after a reported one): the composition ends at a packet
 boundary in the abstract state the packet-level automaton computes, the reports it made are
 exactly that automaton's, in order, and there are exactly as many ACKs as reports. -/
 theorem history_exact (c : Config) (hc : c.delay ≤ c.counterMax + 1) (ps : List RxPacket) (s : State)
-    (hs : Boundary s) (hl : Legal c ps) :
+    (hs : Boundary s) (hl : LegalFrom c (absOf s) ps) :
     Boundary (final c s (renderAll ps)) ∧
     absOf (final c s (renderAll ps)) = specFinal c.addr (absOf s) (ps.map (·.bytes)) ∧
     receivedOnly (trace c s (renderAll ps)) = specReports c.addr (absOf s) (ps.map (·.bytes)) ∧
@@ -91,10 +129,10 @@ theorem history_exact (c : Config) (hc : c.delay ≤ c.counterMax + 1) (ps : Lis
   induction ps generalizing s with
   | nil => exact ⟨hs, rfl, rfl, rfl⟩
   | cons p ps ih =>
-    obtain ⟨hw, hg, hb⟩ := hl p (by simp)
-    obtain ⟨b1, b2, _, _⟩ := packet_exact c hc p s hs hw hg hb 0
-    obtain ⟨t1, t2⟩ := packet_trace c hc p s hs hw hg hb
-    obtain ⟨i1, i2, i3, i4⟩ := ih _ b1 (fun q hq => hl q (by simp [hq]))
+    obtain ⟨hw, hb, hg2, hg3, hrest⟩ := hl
+    obtain ⟨b1, b2, _, _⟩ := packet_exact c hc p s hs hw hb hg2 hg3 0
+    obtain ⟨t1, t2⟩ := packet_trace c hc p s hs hw hb hg2 hg3
+    obtain ⟨i1, i2, i3, i4⟩ := ih _ b1 (by rw [b2]; exact hrest)
     have er : renderAll (p :: ps) = render p ++ renderAll ps := by simp [renderAll]
     rw [er, final_append, trace_append, receivedOnly_append, ackCount_append, i3, i4, b2]
     refine ⟨i1, by rw [i2, b2]; rfl, ?_, ?_⟩
@@ -160,16 +198,18 @@ correct CRC16.  In that case exactly one report with the little-endian decoded f
 one ACK happen (ACK first iff it goes out in the strobe cycle; always so at high speed); otherwise
 nothing at all happens during `p`. -/
 theorem setup_reported_iff (c : Config) (hc : c.delay ≤ c.counterMax + 1) (pre : List RxPacket) (p : RxPacket)
-    (hl : Legal c (pre ++ [p])) :
+    (hl : LegalFrom c absInit (pre ++ [p])) :
     (armedAfter c.addr (pre.map (·.bytes)) = true ∧ isSetupData p.bytes = true →
       (trace c (final c init (renderAll pre)) (render p) = [report p.bytes.tail, .ack] ∨
        trace c (final c init (renderAll pre)) (render p) = [.ack, report p.bytes.tail]) ∧
       (c.hs = true → trace c (final c init (renderAll pre)) (render p) = [.ack, report p.bytes.tail])) ∧
     (¬ (armedAfter c.addr (pre.map (·.bytes)) = true ∧ isSetupData p.bytes = true) →
       trace c (final c init (renderAll pre)) (render p) = []) := by
-  obtain ⟨b1, b2, _, _⟩ := history_exact c hc pre init boundary_init (fun q hq => hl q (by simp [hq]))
-  obtain ⟨hw, hg, hb⟩ := hl p (by simp)
-  obtain ⟨t1, t2⟩ := packet_trace c hc p _ b1 hw hg hb
+  obtain ⟨hl1, hl2⟩ := (legalFrom_append c absInit pre [p]).1 hl
+  obtain ⟨b1, b2, _, _⟩ := history_exact c hc pre init boundary_init (by rw [absOf_init]; exact hl1)
+  obtain ⟨hw, hb, hg2, hg3, _⟩ := hl2
+  rw [← absOf_init, ← b2] at hg3
+  obtain ⟨t1, t2⟩ := packet_trace c hc p _ b1 hw hb hg2 hg3
   have hsp := spec_report_iff c.addr (absOf (final c init (renderAll pre))) p.bytes hb
   rw [b2, absOf_init] at hsp t1 t2
   change (specStep c.addr (specFinal c.addr absInit (pre.map (·.bytes))) p.bytes).2
@@ -197,7 +237,7 @@ up in cycle `n`), otherwise exactly `delay + 1` cycles later, when the timer res
 strobe reaches the inter-packet delay.  Any other packet causes no ACK.  And the timer cannot be
 at `delay` in cycle `n` if `delay < 13` (a SETUP data packet keeps the line busy for 13 cycles). -/
 theorem ack_once_after_gap (c : Config) (hc : c.delay ≤ c.counterMax + 1) (pre : List RxPacket) (p : RxPacket)
-    (hl : Legal c (pre ++ [p])) (t : Nat) :
+    (hl : LegalFrom c absInit (pre ++ [p])) (t : Nat) :
     ttrace c (final c init (renderAll pre)) (render p) t =
       (if armedAfter c.addr (pre.map (·.bytes)) && isSetupData p.bytes then
         (if (strobeState c (final c init (renderAll pre)) p).counter == c.delay || c.hs then
@@ -206,9 +246,11 @@ theorem ack_once_after_gap (c : Config) (hc : c.delay ≤ c.counterMax + 1) (pre
        else []) ∧
     (isSetupData p.bytes = true → c.delay < 13 → c.delay ≤ c.counterMax →
       ((strobeState c (final c init (renderAll pre)) p).counter == c.delay) = false) := by
-  obtain ⟨b1, b2, _, _⟩ := history_exact c hc pre init boundary_init (fun q hq => hl q (by simp [hq]))
-  obtain ⟨hw, hg, hb⟩ := hl p (by simp)
-  obtain ⟨_, _, h3, h4⟩ := packet_exact c hc p _ b1 hw hg hb t
+  obtain ⟨hl1, hl2⟩ := (legalFrom_append c absInit pre [p]).1 hl
+  obtain ⟨b1, b2, _, _⟩ := history_exact c hc pre init boundary_init (by rw [absOf_init]; exact hl1)
+  obtain ⟨hw, hb, hg2, hg3, _⟩ := hl2
+  rw [← absOf_init, ← b2] at hg3
+  obtain ⟨_, _, h3, h4⟩ := packet_exact c hc p _ b1 hw hb hg2 hg3 t
   have hsp := spec_report_iff c.addr (absOf (final c init (renderAll pre))) p.bytes hb
   rw [b2, absOf_init] at hsp h3
   change (specStep c.addr (specFinal c.addr absInit (pre.map (·.bytes))) p.bytes).2
@@ -296,6 +338,19 @@ example : Legal demoCfg [demoBadData, demoToken, demoData, demoForeignOut, demoT
   simp only [List.mem_cons, List.not_mem_nil, or_false] at hp
   rcases hp with rfl | rfl | rfl | rfl | rfl | rfl | rfl <;>
     exact ⟨by decide, gapOk_intro _ _ (by decide), by decide +kernel⟩
+
+/-- an unrelated data packet followed by only 2 idle cycles (no handshake gap) is a legal history too -/
+def demoIsoData : RxPacket := dataPacket [0] 0xC3 [] ((demoBody ++ [usb2Crc16 demoBody % 256, usb2Crc16 demoBody / 256]).map (fun b => (b, []))) [0, 0]
+theorem gap2_intro (p : RxPacket) (n : Nat)
+    (h : (match p.bytes with | pid :: _ => isDataPid pid | [] => false) = true → n ≤ p.gap.length) :
+    (∃ pid rest, p.bytes = pid :: rest ∧ isDataPid pid = true) → n ≤ p.gap.length := by
+  intro ⟨pid, rest, h1, h2⟩
+  apply h; rw [h1]; exact h2
+example : LegalFrom demoCfg absInit [demoIsoData, demoToken, demoData] := by
+  refine ⟨by decide, by decide +kernel, gap2_intro _ _ (by decide), fun h => absurd ?_ h,
+    by decide, by decide, gap2_intro _ _ (by decide), fun h => absurd ?_ h,
+    by decide, by decide +kernel, gap2_intro _ _ (by decide), fun _ => by decide, trivial⟩ <;>
+    decide +kernel
 
 example : isSetupData demoData.bytes = true ∧ isSetupData demoBadData.bytes = false ∧
     isSetupData demoRunt.bytes = false := by decide +kernel
